@@ -109,6 +109,18 @@ func WorkerMain(e Engine) {
 				os.Exit(2)
 			}
 			out.Flush()
+		case "payload":
+			MarkRun(req.Idx)
+			var r *RunResult
+			if pr, ok := e.(PayloadRunner); ok {
+				r = pr.RunPayload(req.Payload)
+			} else {
+				r = &RunResult{Invalid: "engine has no payload runner"}
+			}
+			if err := enc.Encode(&Response{Kind: "payload", Idx: req.Idx, Result: r}); err != nil {
+				os.Exit(2)
+			}
+			out.Flush()
 		case "replay":
 			MarkRun(req.Idx)
 			var src *vs.Source
